@@ -20,6 +20,7 @@ RULE = (
     "original, vars()/class dict unchanged, zero condition/capture events and violating inputs pass; when it must be enabled: "
     "violating inputs raise and conditions run; for enabled=True items traces, verdicts and messages are byte-identical across "
     "the interpreter modes (memory addresses masked). Non-trivial = every (item, configuration) pair; exhaustive over the matrix."
+    ' A (possibly disabled) invariant on a plain sub-class of a class with an explicitly enabled invariant leaves the members of the sub-class what they are; cross-mode scenario: a constructor that is a callable object.'
 )
 ASSUMPTIONS = ["subprocess environment is otherwise identical", "decorators created with enabled=False are not validated (silent zone)"]
 
